@@ -326,6 +326,8 @@ func (r *rw) post(n ast.Node, parent ast.Node) ast.Node {
 			body = append(body, cc.Body...)
 			clauses = append(clauses, &ast.CaseClause{List: []ast.Expr{&ast.BasicLit{Kind: token.INT, Value: strconv.Itoa(i)}}, Body: body})
 		}
+		// default clause: only reached during teardown (Select returns -1); keeps the statement terminating
+		clauses = append(clauses, &ast.CaseClause{Body: []ast.Stmt{&ast.ExprStmt{X: &ast.CallExpr{Fun: ast.NewIdent("panic"), Args: []ast.Expr{vrtCall("SelectAborted")}}}}})
 		sw := &ast.SwitchStmt{Tag: vrtCall("Select", descs...), Body: &ast.BlockStmt{List: clauses}}
 		if _, labelled := parent.(*ast.LabeledStmt); labelled {
 			fail("unsupported: labelled select statement")
